@@ -129,6 +129,15 @@ class Check(PropCheck):
                 yield mk(init=['text', s], upper=True)
                 yield mk(init=['text', s], upper=True, via='html', ctx=1)
                 yield mk(init=['text', s], upper=True, via='setattr', assign=['b', False])
+            # the element has a history: it held another text, the property was read, then the text was put there (or taken
+            # away) through the attributes mapping — the read must follow the text that is stored now
+            yield mk(via='mapping')
+            for s in vals[:6] + ['', '5', 'false', 'Off', 'POST']:
+                yield mk(init=['text', s], via='mapping')
+            # the process-wide switch of what `.attributes` is (toggleAttributesDOM) does not change what a property reads
+            for s in ['', '5', 'false', 'Off', 'POST', 'x']:
+                yield mk(init=['text', s], dommode=True)
+                yield mk(init=['text', s], dommode=True, via='html', ctx=1)
             yield mk(pre=True, assign=['s', 'x'])
             yield mk(upper=True)
             yield mk(upper=True, assign=['s', '-2'])
@@ -139,7 +148,7 @@ class Check(PropCheck):
     def features(self, d):
         linked = d['prop'] in props_of(d['tag'])
         k = S.rule(d['tag'], d['prop'])[0] if linked else 'unlinked'
-        fs = ['kind:' + k, 'init:' + d['init'][0], 'via:' + d['via'], 'ctx:%d' % d['ctx']]
+        fs = ['kind:' + k, 'init:' + d['init'][0], 'via:' + d['via'], 'ctx:%d' % d['ctx']] + (['attributes=DOM'] if d.get('dommode') else [])
         if d.get('pre'):
             fs.append('other-attribute-first')
         if d.get('upper'):
@@ -199,7 +208,8 @@ class Check(PropCheck):
         anc = [enc('div'), enc('form')] if d['ctx'] else []
         up = d.get('upper')
         return sx(mode, enc(d['tag'].upper() if up else d['tag']), enc(d['prop']), enc(d['attr']),
-                  enc(d['attr'].upper() if up else d['attr']), anc, bool(d.get('pre')), d['via'], i, asg)
+                  enc(d['attr'].upper() if up else d['attr']), anc, bool(d.get('pre')),
+                  'setattr' if d['via'] == 'mapping' else d['via'], i, asg)
 
     # ---- library side --------------------------------------------------------------------------
     def build(self, d):
@@ -229,7 +239,17 @@ class Check(PropCheck):
             self._keep = p
             return e
         attrs = [] if init[0] == 'absent' else [(iattr, None if init[0] == 'bare' else init[1])]
-        if d['via'] == 'setattr':
+        if d['via'] == 'mapping':
+            e = AHP.AdvancedTag(ctag, pre + [(iattr, 'zz7')])
+            try:
+                getattr(e, d['prop'])
+            except Exception:
+                pass
+            if init[0] == 'absent':
+                del e.attributesDict[iattr]
+            else:
+                e.attributesDict[iattr] = init[1]
+        elif d['via'] == 'setattr':
             e = AHP.AdvancedTag(ctag, pre)
             for k, v in attrs:
                 e.setAttribute(k, v)
@@ -266,7 +286,23 @@ class Check(PropCheck):
             return ['obj', 'style']
         return ['obj', name]
 
+    def _dommode(self, d, fn):
+        if not d.get('dommode'):
+            return fn(d)
+        import AdvancedHTMLParser as AHP
+        AHP.Tags.toggleAttributesDOM(True)
+        try:
+            return fn(d)
+        finally:
+            AHP.Tags.toggleAttributesDOM(False)
+
     def impl(self, d):
+        return self._dommode(d, self._impl)
+
+    def oracle(self, d):
+        return self._dommode(d, self._oracle)
+
+    def _impl(self, d):
         e = self.build(d)
         setout = 'skip'
         if d['assign'] is not None:
@@ -285,7 +321,7 @@ class Check(PropCheck):
         return sx(setout, val, av, has, attrs)
 
     # ---- the property itself on the library -------------------------------------------------------
-    def oracle(self, d):
+    def _oracle(self, d):
         tag, prop, attr = d['tag'], d['prop'], d['attr']
         if prop not in props_of(tag):
             return None                                   # control cells: correspondence only
